@@ -31,6 +31,8 @@ enum Unit {
     Dag { n: usize, prefix: Vec<POp> },
     Chain { k: usize, pat: usize },
     NoChoice,
+    /// choice clauses with out-of-line calls between them
+    Calls { inner: usize, outer: usize },
 }
 
 const PATTERNS: [&[B]; 6] = [
@@ -57,6 +59,11 @@ fn units(tier: Tier) -> Vec<Unit> {
     for k in [0usize, 1, 2, 3, 7, 8, 9, 63, 64, 65, 199, 200] {
         for pat in 0..PATTERNS.len() {
             v.push(Unit::Chain { k, pat });
+        }
+    }
+    for inner in 0..4 {
+        for outer in 0..4 {
+            v.push(Unit::Calls { inner, outer });
         }
     }
     v
@@ -618,6 +625,17 @@ impl Check for C20 {
                 spec.for_each(n, &prefix, true, &mut |p, _| {
                     check_prog(cx, &mut sub, p, tier, false);
                 });
+            }
+            Unit::Calls { inner, outer } => {
+                let ops = [B::Min, B::Max, B::And, B::Or];
+                for (h, g) in [(U::Sin, U::Exp), (U::Exp, U::Cos), (U::Atan, U::Sin)] {
+                    for third in [false, true] {
+                        for imm in [false, true] {
+                            let p = prog::calls_between_choices(ops[inner], ops[outer], h, g, third, imm);
+                            check_prog(cx, &mut sub, &p, tier, true);
+                        }
+                    }
+                }
             }
             Unit::Chain { k, pat } => {
                 for imm_every in [0usize, 1, 3] {
